@@ -252,7 +252,7 @@ class Analysis:
         """site_list: Sites; fn_paths: fn display -> def path. returns dict key -> result"""
         res = {}
         for s in site_list:
-            path = fn_paths[s.fn]
+            path = s.path
             it = self.interp(path)
             if it is None:
                 res[s.key] = None
